@@ -752,6 +752,65 @@ func c16Engine(env *Env, rep *Report) {
 		rep.Nontrivial++
 		rep.Count("engine_isolation_shared_option")
 	}
+	// instances made at the same moment by several goroutines from ONE option slice (with room to spare in its backing
+	// array) through one engine: each has its own variables
+	{
+		cs := "8 goroutines create instances at the same moment through one engine from one option slice with spare capacity; each writes and reads its own variable"
+		env.Current(cs)
+		q := &Prog{}
+		q.Node("start", "start")
+		q.Node("task", "T")
+		q.Node("end", "end")
+		q.Flow("start", "T", "")
+		q.Flow("T", "end", "")
+		xmlText := q.XML("")
+		rounds := 60
+		if env.Thorough() {
+			rounds = 600
+		}
+		sharedLoc, leaked := 0, 0
+		for r := 0; r < rounds; r++ {
+			opts := make([]bpmn.Option, 1, 8)
+			opts[0] = bpmn.WithVariables(map[string]any{"who": -1})
+			eng := bpmn.NewEngine()
+			procs := make([]*bpmn.Process, 8)
+			docs := make([]*schema.Definitions, 8)
+			for g := range docs {
+				docs[g], _ = ParseDefs(xmlText)
+			}
+			var wg sync.WaitGroup
+			start := make(chan struct{})
+			for g := 0; g < 8; g++ {
+				wg.Add(1)
+				go func(g int) {
+					defer wg.Done()
+					<-start
+					var err error
+					procs[g], err = eng.NewProcess(docs[g], opts...)
+					must(err)
+					procs[g].Locator().SetVariable("who", g)
+				}(g)
+			}
+			close(start)
+			wg.Wait()
+			seen := map[any]bool{}
+			for g, pr := range procs {
+				if seen[pr.Locator()] {
+					sharedLoc++
+				}
+				seen[pr.Locator()] = true
+				if v, _ := pr.Locator().GetVariable("who"); fmt.Sprint(v) != fmt.Sprint(g) {
+					leaked++
+				}
+			}
+		}
+		rep.Evaluations++
+		rep.Nontrivial++
+		rep.Count("engine_isolation_concurrent_creation")
+		if sharedLoc > 0 || leaked > 0 {
+			rep.Violate("C16-isolation", cs, fmt.Sprintf("in %d rounds: %d instances run on the locator of another one, %d read back a value another instance wrote", rounds, sharedLoc, leaked))
+		}
+	}
 	propertyPerRequest(env, rep, "C16-engine", "C16-isolation")
 	manyWritersAtOnce(env, rep, "C16-engine", 6)
 	c16ExprPools(env, rep)
